@@ -25,12 +25,12 @@ theorem ca_all_keys : allCarried Carried.modelKeys = true := by
   unfold allCarried at a b c d
   rw [a, b, c, d]; rfl
 
-theorem ca_unm_a : (notModelled (carriedKeys.take 45)).length = 1 := by decide +kernel
+theorem ca_unm_a : (notModelled (carriedKeys.take 45)).length = 0 := by decide +kernel
 theorem ca_unm_b : (notModelled ((carriedKeys.drop 45).take 45)).length = 2 := by decide +kernel
 theorem ca_unm_c : (notModelled (((carriedKeys.drop 45).drop 45).take 45)).length = 0 := by decide +kernel
 theorem ca_unm_d : (notModelled (((carriedKeys.drop 45).drop 45).drop 45)).length = 0 := by decide +kernel
 
-theorem ca_unmodelled : (notModelled carriedKeys).length = 3 := by
+theorem ca_unmodelled : (notModelled carriedKeys).length = 2 := by
   have h := ca_split carriedKeys 45
   have a := ca_unm_a; have b := ca_unm_b; have c := ca_unm_c; have d := ca_unm_d
   unfold notModelled at *
